@@ -53,7 +53,9 @@ def enum_idcar(ctx):
             idx += 1
             if ctx.mine(idx):
                 rng = ctx.rng("id", code, car)
-                yield {"code": code, "car": car, "ctx": [[rng.getrandbits(14), rng.getrandbits(56), rng.getrandbits(24), rng.choice("ULM"), rng.getrandbits(11), rng.getrandbits(32)] for _ in range(k)]}
+                rcar = ctx.rng("id-fixed", car)  # one context shared by all codes of a carrier
+                yield {"code": code, "car": car, "ctx": [[rng.getrandbits(14), rng.getrandbits(56), rng.getrandbits(24), rng.choice("ULM"), rng.getrandbits(11), rng.getrandbits(32)] for _ in range(k)] +
+                       [[rcar.getrandbits(14), rcar.getrandbits(56), rcar.getrandbits(24), "U", rcar.getrandbits(11), rcar.getrandbits(32)]]}
 
 
 def digits(code):
